@@ -77,9 +77,16 @@ func normalizeDocument(schema *Schema, doc *ast.Document, operationName string) 
 	}
 
 	ctx := &normCtx{
-		schema:    schema,
-		synthArgs: map[string]interface{}{},
+		schema:     schema,
+		synthArgs:  map[string]interface{}{},
 		newVarDefs: nil,
+		takenNames: map[string]bool{},
+	}
+	// a synthetic variable must not take the name of one the client declared
+	for _, vd := range op.VariableDefinitions {
+		if vd != nil && vd.Variable != nil && vd.Variable.Name != nil {
+			ctx.takenNames[vd.Variable.Name.Value] = true
+		}
 	}
 
 	newOp := cloneOperation(op)
@@ -396,12 +403,19 @@ type normCtx struct {
 	// synthByLiteral maps (type, printed literal) to the synthetic
 	// variable already created for it.
 	synthByLiteral map[string]string
+
+	// takenNames holds the names of the operation's own variables.
+	takenNames map[string]bool
 }
 
 func (c *normCtx) nextName() string {
-	n := fmt.Sprintf("__pcv%d", c.counter)
-	c.counter++
-	return n
+	for {
+		n := fmt.Sprintf("__pcv%d", c.counter)
+		c.counter++
+		if !c.takenNames[n] {
+			return n
+		}
+	}
 }
 
 // normalizeSelectionSet walks selections under the given parent type.
